@@ -106,6 +106,8 @@ def random_reject_op(rng, sim):
         {"k": "truncate_value", "left": R(x[0]), "right": R(x[0]), "lr": False, "rr": False},
         {"k": "truncate_index", "start": -1, "stop": n},
         {"k": "truncate_index", "start": 0, "stop": n + 1},
+        {"k": "truncate_index", "start": rng.randint(1, max(1, n - 2)), "stop": n + rng.randint(1, 5)},
+        {"k": "slice_index", "start": rng.randint(1, max(1, n - 2)), "stop": n + 1},
         {"k": "slice_index", "start": -2, "stop": NONEINT},
         {"k": "slice_index", "start": 0, "stop": n + 3},
         {"k": "slice_value", "start": R(x[0] + Fraction(1, 64)), "stop": NONE},
@@ -166,3 +168,117 @@ def random_history(rng, maxlen=8, with_rejects=False, continuation=True):
             ops.append(random_reject_op(rng, sim2))
     return {"fn": "whist", "start": {"x": [R(v) for v in xs], "y": [R(v) for v in ys], "container": rng.choice(["array", "array", "list", "int"])},
             "ops": ops}
+
+
+# ---------------------------------------------------------------------------------------------- whole-API programs (C09)
+STRATS = ["PiecewiseConstant", "LinearFixed", "LinearAdaptive", "ExpFixed", "ExpAdaptive", "CubicSpline"]
+METHODS = ["linear", "constant", "cubic", "spline"]
+
+
+def sim_apply(sim, op):
+    k = op["k"]
+    F = lambda r: Fraction(r[0], r[1])
+    x = sim.x
+    if k == "recreate":
+        n = op["n"]
+        out = []
+        for a, b in zip(x, x[1:]):
+            out += [a + (b - a) * Fraction(j, n) for j in range(n)]
+        sim.x = out + [x[-1]]
+    elif k == "interpolate_n":
+        n = op["n"]
+        sim.x = [x[0] + (x[-1] - x[0]) * Fraction(j, n - 1) for j in range(n - 1)] + [x[-1]]
+    elif k == "interpolate_grid":
+        sim.x = [F(r) for r in op["q"]]
+    else:
+        sim.apply(op)
+
+
+def random_program(rng, maxops=10, maxlen=40, start=None):
+    xs, ys = start if start is not None else random_start(rng, 4, 14)
+    xs, ys = list(xs), list(ys)
+    sim = XSim(xs)
+    orig_x = list(xs)
+    ops = []
+    reshaped = False
+    normalized_x = False
+    for _ in range(rng.randint(1, maxops)):
+        n = len(sim.x)
+        r = rng.random()
+        if r < 0.34:
+            op = random_domain_op(rng, sim, maxlen)
+            if op["k"] == "truncate_value":           # bounds that cannot coincide with a sample (no floating-point ties)
+                op = {"k": "truncate_value", "left": R(Fraction(rng.randint(1, 40), 97)), "right": R(Fraction(rng.randint(55, 96), 97)), "lr": True, "rr": True}
+            if op["k"] == "normalize_x":
+                normalized_x = True
+        elif r < 0.40:
+            if normalized_x:
+                continue
+            op = {"k": "restore_original"}
+            sim = XSim(orig_x)
+            reshaped = False
+            ops.append(op)
+            continue
+        elif r < 0.52:
+            if n * 2 - 1 > maxlen * 2:
+                continue
+            nn = rng.randint(2, 3 if n > 12 else 5)
+            s = rng.choice(STRATS)
+            op = {"k": "recreate", "strategy": s, "n": nn, "a": rng.choice([-1, rng.randint(0, nn)]), "alpha": R(rng.choice([1, Fraction(1, 2), Fraction(3, 4)])),
+                  "beta": R(rng.choice([0, Fraction(1, 2), 1])), "exp": R(rng.choice([1, 2, 3])), "smooth": rng.choice([1, 2])}
+            ops.append(op)
+            sim_apply(sim, op)
+            if not reshaped and rng.random() < 0.7:
+                ops.append({"k": "integral_match", "trule": rng.choice(["trapezoid", "rectangle"]), "rrule": rng.choice(["rectangle", "rectangle", "trapezoid"]),
+                            "alpha": R(rng.choice([1, 2]))})
+            reshaped = True
+            continue
+        elif r < 0.60:
+            if n < 4:
+                continue
+            op = {"k": "interpolate_n", "n": rng.choice([2, 3, 5, 9, 17, n, 2 * n - 1]), "method": rng.choice(METHODS)}
+            if op["n"] > maxlen * 2:
+                continue
+            reshaped = True
+        elif r < 0.68:
+            if n < 4:
+                continue
+            m = rng.randint(2, 9)
+            inner = sorted(set(sim.x[0] + (sim.x[-1] - sim.x[0]) * Fraction(rng.randint(1, 63), 64) for _ in range(m - 2)))
+            q = [sim.x[0]] + inner + [sim.x[-1]]
+            op = {"k": "interpolate_grid", "q": [R(v) for v in q], "method": rng.choice(METHODS), "qcontainer": rng.choice(["array", "list"]), "snap_ends": True}
+            reshaped = True
+        elif r < 0.76:
+            op = {"k": "trend", "c": [R(Fraction(rng.randint(-4, 4), 2)) for _ in range(3)], "normalized": rng.random() < 0.5}
+            reshaped = True
+        elif r < 0.82:
+            if n < 5:
+                continue
+            op = {"k": "smooth", "s_f": rng.choice([0.0, 0.5, 5.0, 50.0])}
+            reshaped = True
+        elif r < 0.88:
+            op = {"k": "noise", "snr_f": rng.choice([5.0, 20.0, 40.0]), "seed": rng.randint(0, 10 ** 6)}
+            reshaped = True
+        else:
+            op = rng.choice([{"k": "slice_index", "start": rng.randint(0, n - 1), "stop": rng.choice([NONEINT, rng.randint(1, n)]), "step": rng.choice([1, 2, -1])},
+                             {"k": "slice_value", "start": R(sim.x[rng.randrange(n)]) if n and all(v.denominator in (1, 2, 4, 8, 16) for v in sim.x) else NONE, "stop": NONE},
+                             {"k": "get"}, {"k": "len"}, {"k": "to_2d_array"}] + ([{"k": "to_function"}] if n >= 5 else []))
+        ops.append(op)
+        sim_apply(sim, op)
+        if len(sim.x) < 4:
+            break
+    return {"fn": "whist", "start": {"x": [R(v) for v in xs], "y": [R(v) for v in ys], "container": rng.choice(["array", "array", "list", "int"])},
+            "ops": ops}
+
+
+def random_restore_case(rng):
+    """prefix program, restore_original, suffix program; the suffix is generated as a program on the start series itself
+    (the prefix contains no normalisation, so get_original() returns the start series)."""
+    xs, ys = random_start(rng, 4, 14)
+    start = (xs, ys)
+    while True:
+        prefix = [o for o in random_program(rng, maxops=5, start=start)["ops"] if o["k"] != "restore_original"]
+        if not any(o["k"] in ("normalize_x", "normalize_y") for o in prefix):
+            break
+    suffix = random_program(rng, maxops=5, start=start)["ops"]
+    return {"fn": "wrestore", "start": {"x": [R(v) for v in xs], "y": [R(v) for v in ys]}, "prefix": prefix, "suffix": suffix}
